@@ -87,7 +87,7 @@ def run_history(tag, cfg, seed, nops=None):
     _join(H, "l")
     _join(H, rng.choice(["v", "l", "raw"]))
     weights = (["join"] * 3 + ["join_same_ip"] * 2 + ["legit"] * 6 + ["down"] * 3 + ["attack"] * 10 + ["login_attack"] * 5 +
-               ["advance"] * 3 + ["reuse"] * 2 + ["down_odd"] * 2 + ["raw_shadow"] * 2)
+               ["advance"] * 3 + ["raw_stream"] * 1 + ["reuse"] * 2 + ["down_odd"] * 2 + ["raw_shadow"] * 2)
     for _ in range(n):
         if not H.srv.alive() or k.stalled:
             break
@@ -234,13 +234,15 @@ def _send_up(H, p, frame, slot=None, via=None):
     slot = p.slot if slot is None else slot
     own = slot == p.slot and p.stage in ("l", "raw") and not p.dead
     via = via or ("raw" if (p.stage == "raw" and own and H.rng.random() < 0.7) else "dns")
-    rec = {"slot": slot, "via": via, "dgrams": [], "by": p.name, "t": H.k.now}
+    rec = {"slot": slot, "via": via, "dgrams": [], "by": p.name, "t": H.k.now, "own": own}
     H.up_frames[frame] = rec
     if via == "raw":
         d = proto.raw_frame(proto.RAW_DATA, slot, proto.deflate(frame))
         rec["dgrams"].append(d)
         mc.send_raw_dgram(d)
         H.k.run(H.k.now + 30000)
+        if own:
+            p.last_act = H.k.now       # (no acknowledgement exists for raw data; best knowledge)
         return
     if own:
         ok = mc.send_frame(frame, wait_us=120000, max_tries=3)
@@ -554,6 +556,33 @@ def op_advance(H):
             p.last_act = k.now
 
 
+def op_raw_stream(H):
+    """A raw-mode session that is busy for longer than the expiry time without ever idling: only raw DATA, no pings,
+    a packet every 15-45 s for 70-150 s; then a newcomer asks for a slot."""
+    rng = H.rng
+    k = H.k
+    c = [p for p in H.parties if p.role == "legit" and p.stage == "raw" and _alive(H, p)]
+    if not c:
+        p = _join(H, "raw")
+        if p.stage != "raw":
+            return
+    else:
+        p = rng.choice(c)
+    end = k.now + rng.choice([70, 100, 150]) * US
+    while k.now < end and H.srv.alive():
+        _send_up(H, p, _frame(H, p.mc.tun_ip, H.server_tun_ip), via="raw")
+        k.run(k.now + rng.choice([15, 30, 45, 59]) * US)
+    _send_up(H, p, _frame(H, p.mc.tun_ip, H.server_tun_ip), via="raw")
+    k.run(k.now + rng.choice([1, 5, 30]) * US)
+    _join(H, rng.choice(["v", "l"]))
+    # and the busy session carries on
+    _send_up(H, p, _frame(H, p.mc.tun_ip, H.server_tun_ip), via="raw")
+    f = _frame(H, H.server_tun_ip, p.mc.tun_ip, size=60)
+    H.offered[f] = {"t": k.now, "dst": p.mc.tun_ip}
+    k.offer_tun("srv", f, None)
+    k.run(k.now + 50000)
+
+
 def op_reuse(H):
     """Let a session expire, have newcomers take its slot, then let the previous owner carry on as if
     nothing had happened (it must be refused until it logs in again)."""
@@ -621,4 +650,4 @@ def op_raw_shadow(H):
 
 
 OPS = {"raw_shadow": op_raw_shadow, "join": op_join, "legit": op_legit, "down": op_down, "down_odd": op_down_odd, "attack": op_attack,
-       "login_attack": op_login_attack, "advance": op_advance, "reuse": op_reuse, "join_same_ip": op_join_same_ip}
+       "login_attack": op_login_attack, "advance": op_advance, "reuse": op_reuse, "join_same_ip": op_join_same_ip, "raw_stream": op_raw_stream}
